@@ -564,10 +564,23 @@ def d6_bounds(ctx, obs):
         if slot == 'e_tauint':
             e = got.subs(C02.Fnt(C02.W), sp.Rational(1, 2) + p) - sp.Rational(1, 2)
             e = e.replace(lambda x: isinstance(x, sp.Abs), lambda x: sp.Dummy('absval', nonnegative=True))
+            # values of rho / drho / Gamma at some lag that are not wrapped in abs() have no known sign
+            from sympy.core.function import AppliedUndef
+            unk = {}
+            for a_ in sorted(e.atoms(AppliedUndef), key=str):
+                unk[a_] = sp.Dummy('unsigned_' + str(a_.func), real=True)
+            e = e.xreplace(unk)
             num, den = sp.fraction(sp.together(e))
             num, den = sp.expand(num), sp.expand(den)
-            ok = (num.is_nonnegative or all(c >= 0 for c in sp.Poly(num, *sorted(num.free_symbols, key=str)).coeffs())) and \
-                (den.is_positive or all(c > 0 for c in sp.Poly(den, *sorted(den.free_symbols, key=str)).coeffs())) if num.free_symbols or den.free_symbols else (num / den) >= 0
+
+            def _nonneg_poly(q, strict):
+                if not q.free_symbols:
+                    return bool(q > 0) if strict else bool(q >= 0)
+                if not all(x.is_nonnegative for x in q.free_symbols):
+                    return False
+                cs = sp.Poly(q, *sorted(q.free_symbols, key=str)).coeffs()
+                return all((c > 0) if strict else (c >= 0) for c in cs)
+            ok = (bool(num.is_nonnegative) or _nonneg_poly(num, False)) and (bool(den.is_positive) or _nonneg_poly(den, True))
             ctx.check(rule, key, bool(ok), 'tau_int - 1/2 = %s >= 0 given tau_W >= 1/2' % sp.factor(e), 'tau_int may fall below 1/2: tau_int - 1/2 = %s' % e, obs.loc(s))
         else:
             e = got.replace(lambda x: isinstance(x, sp.Abs), lambda x: sp.Dummy('absval', nonnegative=True))
@@ -581,6 +594,36 @@ def d6_bounds(ctx, obs):
                 ctx.unrec(rule, key, 'sign of %s not decided' % e, obs.loc(s))
             else:
                 ctx.check(rule, key, bool(ok), '%s is non-negative by construction' % e, '%s may be negative' % e, obs.loc(s))
+
+
+def d8_fft_guards(ctx, obs):
+    """quantities returned by the FFT-capable _calc_gamma are exact only on the direct path: a guard on them has to be an
+    inequality with a margin (a pair count of 'zero' is 1e-13 after the FFT), never an exact equality test"""
+    rule = 'C03-D8'
+    f = obs.func('Obs.gamma_method')
+    bases = {}
+    for s_ in statements(f):
+        if isinstance(s_, (ast.Assign, ast.AugAssign)):
+            v = s_.value
+            if any(isinstance(c, ast.Call) and call_name(c) == '_calc_gamma' for c in ast.walk(v)):
+                t = s_.targets[0] if isinstance(s_, ast.Assign) else s_.target
+                bases[unparse(t)] = s_
+    if not bases:
+        raise Unrecognised('no value assigned from _calc_gamma found')
+    n = 0
+    for c in walk(f):
+        if not isinstance(c, ast.Compare):
+            continue
+        operands = [c.left] + list(c.comparators)
+        hit = [b for b in bases if any(unparse(x) == b for o in operands for x in ast.walk(o))]
+        if not hit:
+            continue
+        n += 1
+        key = 'obs.py:Obs.gamma_method#guard[%s]' % unparse(c)
+        exact = any(isinstance(op, (ast.Eq, ast.NotEq, ast.Is, ast.IsNot)) for op in c.ops)
+        ctx.check(rule, key, not exact, 'guard on %s is an inequality (same outcome with and without FFT round-off)' % hit[0],
+                  'exact equality test on %s, which is only zero up to round-off on the FFT path: FFT and direct evaluation take different branches' % hit[0], obs.loc(c))
+    ctx.floor('guards on FFT-computed quantities', n, 2)
 
 
 def run(ctx):
@@ -599,14 +642,20 @@ def run(ctx):
     ctx.guarded('C03-D4', 'obs.py@units', d4_units, ctx, obs)
     ctx.guarded('C03-D5', 'obs.py@read-set', d5_readset, ctx, obs)
     ctx.guarded('C03-D6', 'obs.py@bounds', d6_bounds, ctx, obs)
-    from .. import unusedparams
-    ctx.rule('C03-D7', 'every accepted option is read (no silently ignored parameter)')
+    ctx.rule('C03-D8', 'guards on FFT-computed quantities are inequalities')
+    ctx.guarded('C03-D8', 'obs.py@fft-guards', d8_fft_guards, ctx, obs)
+    from .. import unusedparams, leakedloop
+    ctx.rule('C03-D7', 'every accepted option is read (no silently ignored parameter); no loop variable read after its loop')
     for mn_ in ('obs',):
         ctx.guarded('C03-D7', mn_ + '@parameters', unusedparams.check, ctx, 'C03-D7', ctx.repo.mod(mn_))
+        ctx.guarded('C03-D7', mn_ + '@loop-variables', leakedloop.check, ctx, 'C03-D7', ctx.repo.mod(mn_))
 
 
 
 SELFTEST = [
+    ('pair-count-exact-zero', 'pyerrors/obs.py', "gamma_div[gamma_div < 1] = 1.0", "gamma_div[gamma_div == 0] = 1.0", 'C03-D8'),
+    ('benign-pair-count-half', 'pyerrors/obs.py', "gamma_div[gamma_div < 1] = 1.0", "gamma_div[gamma_div < 0.5] = 1.0", 'BENIGN'),
+    ('tail-sign-not-absolute', 'pyerrors/obs.py', "+ texp * np.abs(self.e_rho[e_name][n + 1])", "+ texp * self.e_rho[e_name][n + 1]", 'C03-D6'),
     ('fix-reverted-r_length', 'pyerrors/obs.py', "self.idl[r_name][0] + gapsize) // gapsize)", "self.idl[r_name][0] + 1) // gapsize)", 'C03-D4'),
     ('expand-index-absolute', 'pyerrors/obs.py', "ret[(idx[i] - idx[0]) // gapsize] = deltas[i]", "ret[idx[i] // gapsize] = deltas[i]", 'C03-D4'),
     ('expand-length-plus-one', 'pyerrors/obs.py', "ret = np.zeros((idx[-1] - idx[0] + gapsize) // gapsize)", "ret = np.zeros((idx[-1] - idx[0] + 1) // gapsize)", 'C03-D4'),
